@@ -165,6 +165,10 @@ def build_and_run(base, out, linker, sel, cells, tag):
     res["argv"] = argv
     if linker == "wild":
         rc, msg = wildrun.server_link(argv, cwd=base)
+    elif linker == "lld":
+        r = subprocess.run(["ld.lld", *argv], cwd=base, capture_output=True)
+        rc, msg = r.returncode, r.stderr.decode("utf-8", "replace")
+        res["spawns"] += 1
     else:
         rc, msg = ld_link(base, argv)
         res["spawns"] += 1
@@ -209,7 +213,8 @@ def link_and_run_job(job):
     """Packed program of one (output kind, linker). When the packed program cannot be linked or does
     not start (one cell can make the loader refuse the whole image), the set is bisected; cells that
     fail alone are recorded in `dead`. Returns merged results."""
-    base, out, linker, sel, cells = job
+    base, out, linker, sel, cells = job[:5]
+    prefix = job[5] if len(job) > 5 else ""
     merged = dict(out=out, linker=linker, selected=sel, spawns=0, dead={}, argv=None, programs=0,
                   runs={})
     counter = [0]
@@ -218,7 +223,7 @@ def link_and_run_job(job):
         if not sub:
             return
         counter[0] += 1
-        r = build_and_run(base, out, linker, sub, cells, str(counter[0]))
+        r = build_and_run(base, out, linker, sub, cells, prefix + str(counter[0]))
         merged["spawns"] += r["spawns"]
         merged["programs"] += 1
         if merged["argv"] is None:
@@ -275,7 +280,21 @@ def judge_run(cells, res, run):
     return verdicts
 
 
-UNSUPPORTED_RE = re.compile(r"not (?:yet )?(?:supported|implemented)|[Uu]nsupported|unimplemented", re.I)
+# Rejections wild documents in its diagnostic: a relocation type it does not implement, or its deliberate
+# policy of refusing a direct (non-GOT/PLT) reference to a preemptible / dynamic symbol or an absolute
+# relocation in read-only position-independent code ("recompile with -fPIC" class). Those are counted.
+# Anything else (range errors from a relaxation wild chose itself, internal allocation checks, ...) is
+# reported when the reference linker links the cell and its output is correct.
+UNSUPPORTED_RE = re.compile(r"not (?:yet )?(?:supported|implemented)|unsupported|unimplemented|"
+                            r"Direct relocation \(\w+\) to dynamic symbol|recompile with -fPIC", re.I)
+
+
+def msg_class(msg):
+    m = re.sub(r"\s+", " ", msg.split("Caused by:")[-1]).strip()
+    m = re.sub(r"`[^`]*`", "`_`", m)
+    m = re.sub(r"\(\d+ local=\d+\)|#\d+ \(\d+/\d+\)|\(\d+ \(\d+/\d+\)\)", "", m)
+    m = re.sub(r"-?\b\d+\b|0x[0-9a-f]+", "N", m)
+    return m[:200]
 
 
 def finding_key(cells, idx):
@@ -335,6 +354,7 @@ def x86_part(chk, base, outs, addends, stats, samples):
         stats["programs_linked"] += res["programs"]
     stats["subprocesses"] += spawns
     # --- verdicts
+    pending, rejects = [], []
     for o in outs:
         pw, pl = packed[(o, "wild")], packed[(o, "ld")]
         lv = judge_run(cells, pl, pl["runs"]["so_ld" if "so_ld" in pl["runs"] else "-"]) if pl["runs"] else {}
@@ -354,15 +374,11 @@ def x86_part(chk, base, outs, addends, stats, samples):
                 msg = wacc[o][idx][1]
                 if UNSUPPORTED_RE.search(msg):
                     stats["wild_documents_unsupported"] += 1
-                    stats["unsupported_messages"].add(re.sub(r"\s+", " ", msg)[:200])
+                    stats["unsupported_messages"].add(msg_class(msg))
                 elif lstat != "ok":
                     stats["wild_rejects_ld_output_wrong"] += 1     # ld accepts but does not produce the psABI value
                 else:
-                    stats["wild_rejects"] += 1
-                    chk.violation(f"rejects:{dn}:{rid}:{o}",
-                                  f"wild rejects cell {cells[idx]} for output {o}; GNU ld links it and its program "
-                                  f"observes the correct value. wild: {re.sub(chr(10), ' ', msg)[-300:]}",
-                                  dict(rp, cell=cells[idx], out=o, mode="accept"))
+                    rejects.append((o, idx, msg))
                 continue
             stats["wild_accepted"] += 1
             if not l_ok:
@@ -380,10 +396,8 @@ def x86_part(chk, base, outs, addends, stats, samples):
             sv, st, detail = worst
             if lstat == "ok":
                 stats["wild_wrong_ld_right"] += 1
-                chk.violation(finding_key(cells, idx),
-                              f"{rid} against {dn}{a:+d} in output kind {o} (libdefs by {sv}): {st}: {detail}; "
-                              f"GNU ld's program of the same cell is correct",
-                              dict(rp, cell=cells[idx], out=o, mode="run"))
+                pending.append((o, idx, f"{rid} against {dn}{a:+d} in output kind {o} (libdefs by {sv}): {st}: "
+                                        f"{detail}; GNU ld's program of the same cell is correct"))
             elif lstat == "rejected":
                 stats["wild_wrong_ld_rejects"] += 1
                 stats["wild_wrong_ld_rejects_cells"].add(f"{dn}:{rid}:{a}:{o}:{st}")
@@ -395,6 +409,38 @@ def x86_part(chk, base, outs, addends, stats, samples):
             for idx in pw["selected"][7:400:131]:
                 samples.append({"arch": "x86_64", "out": o, "cell": cells[idx],
                                 "printed": [hex(v) for v in run["results"].get(idx, [])]})
+    # --- a cell wild rejects is reported only if GNU ld's program of that cell ALONE is correct as well (in
+    # the packed program another probe may have changed how the symbol is treated, e.g. a copy relocation)
+    for res in wildrun.pmap(link_and_run_job, [(base, o, f"ld", [idx], cells, f"s{idx}") for o, idx, _ in rejects],
+                            chunksize=1):
+        stats["subprocesses"] += res["spawns"]
+        o, idx = res["out"], res["selected"][0]
+        msg = next(m for oo, i, m in rejects if (oo, i) == (o, idx))
+        v = judge_run(cells, res, res["runs"]["so_ld" if "so_ld" in res["runs"] else "-"]) if res["runs"] else {}
+        dn, rid, a = cells[idx]
+        if v.get(idx, ("dead",))[0] != "ok":
+            stats["wild_rejects_ld_output_wrong"] += 1
+            continue
+        stats["wild_rejects"] += 1
+        stats["reported_reject_messages"].add(msg_class(msg))
+        stats["_deferred"].append((f"rejects:{dn}:{rid}:{o}",
+                      f"wild rejects cell {cells[idx]} for output {o}; GNU ld links it and its program observes the "
+                      f"correct value. wild: {re.sub(chr(10), ' ', msg)[-300:]}",
+                      dict(rp, cell=cells[idx], out=o, mode="accept")))
+    # --- third opinion (information only): what ld.lld does with every cell about to be reported
+    third = {}
+    for o in outs:
+        sel = sorted({i for oo, i, _ in pending if oo == o})
+        if sel:
+            res = link_and_run_job((base, o, "lld", sel, cells))
+            stats["subprocesses"] += res["spawns"]
+            v = judge_run(cells, res, res["runs"]["so_ld" if "so_ld" in res["runs"] else "-"]) if res["runs"] else {}
+            for i in sel:
+                third[(o, i)] = v.get(i, ("rejected or dead", res["dead"].get(i, "")[:80]))[0]
+    for o, idx, what in pending:
+        chk.violation(finding_key(cells, idx), what + f"; ld.lld: {third.get((o, idx), '?')}",
+                      dict(rp, cell=cells[idx], out=o, mode="run",
+                           wild_selected=packed[(o, "wild")]["selected"], ld_selected=packed[(o, "ld")]["selected"]))
     return cells, packed
 
 
@@ -468,14 +514,15 @@ def a64_eval_job(job):
     """Link all accepted probes of one (output kind, linker) into one image and evaluate every probe
     with imgsim. -> dict(out, linker, verdicts {idx: (status, detail)}, error)"""
     import imgsim
-    base, out, linker, sel, cells = job
+    base, out, linker, sel, cells = job[:5]
+    tag = job[5] if len(job) > 5 else ""
     res = dict(out=out, linker=linker, verdicts={}, error=None, spawns=0, argv=None)
     if not sel:
         return res
-    roots = f"roots_{linker}_{out}.o"
+    roots = f"roots_{linker}_{out}{tag}.o"
     shutil.copyfile(vlib.assemble(R.a64_roots_src(sel), arch="aarch64"), os.path.join(base, roots))
     sodir = "so_wild" if linker == "wild" else "so_lld"
-    output = os.path.join(base, f"img_{linker}_{out}")
+    output = os.path.join(base, f"img_{linker}_{out}{tag}")
     argv = R.a64_link_argv(out, output, sodir, roots_obj=roots)
     res["argv"] = argv
     if linker == "wild":
@@ -589,7 +636,6 @@ def a64_part(chk, base, stats, samples):
     for res in wildrun.pmap(a64_eval_job, jobs, procs=len(jobs), chunksize=1):
         ev[(res["out"], res["linker"])] = res
         st["lld_runs"] += res["spawns"]
-    stats["subprocesses"] += st["lld_runs"] + 12
     for o in outs:
         ew, el = ev[(o, "wild")], ev[(o, "lld")]
         if el["error"]:
@@ -610,15 +656,20 @@ def a64_part(chk, base, stats, samples):
                 msg = wacc[o][idx][1]
                 if UNSUPPORTED_RE.search(msg):
                     st["wild_documents_unsupported"] += 1
-                    st["unsupported_messages"].add(re.sub(r"\s+", " ", msg)[:200])
+                    st["unsupported_messages"].add(msg_class(msg))
                 elif lstat != "ok":
                     st["wild_rejects_lld_output_wrong"] += 1
                 else:
+                    alone = a64_eval_job((base, o, "lld", [idx], cells, f"_s{idx}"))
+                    st["lld_runs"] += alone["spawns"]
+                    if alone["verdicts"].get(idx, ("dead",))[0] != "ok":
+                        st["wild_rejects_lld_output_wrong"] += 1
+                        continue
                     st["wild_rejects"] += 1
-                    chk.violation(f"rejects:aarch64:{dn}:{rid}:{o}",
+                    stats["_deferred"].append((f"rejects:aarch64:{dn}:{rid}:{o}",
                                   f"wild rejects AArch64 cell {cells[idx]} for output {o}; ld.lld links it and its image "
                                   f"evaluates to the correct value. wild: {re.sub(chr(10), ' ', msg)[-300:]}",
-                                  dict(rp, cell=cells[idx], out=o))
+                                  dict(rp, cell=cells[idx], out=o)))
                 continue
             st["wild_accepted"] += 1
             wst, detail = ew["verdicts"].get(idx, ("missing", ""))
@@ -643,6 +694,7 @@ def a64_part(chk, base, stats, samples):
                 st["both_wrong_cells"].add(f"{dn}:{rid}:{a}:{o}:wild={wst},lld={lstat}")
         for idx in list(ew["verdicts"])[5:300:97]:
             samples.append({"arch": "aarch64", "out": o, "cell": cells[idx], "verdict": ew["verdicts"][idx]})
+    stats["subprocesses"] += st["lld_runs"] + 12
     return {k: (sorted(v) if isinstance(v, set) else v) for k, v in st.items()}
 
 
@@ -687,7 +739,9 @@ def replay(chk, spec):
         for linker, ok in (("wild", rc == 0), ("ld", lrc == 0)):
             if not ok:
                 continue
-            res = link_and_run_job((base, out, linker, [idx], cells))
+            # the recorded case is the packed program; without a recorded context the cell alone
+            sel = spec.get(f"{linker}_selected") or [idx]
+            res = link_and_run_job((base, out, linker, sel, cells))
             print(f"  {linker} link line: {' '.join(res['argv'] or [])}")
             if res["dead"]:
                 verd[(linker, "-")] = ("dead", res["dead"][idx])
@@ -721,16 +775,21 @@ def main():
                  wild_rejects_ld_output_wrong=0, wild_accepted=0, ld_rejects_wild_accepts=0,
                  wild_wrong_ld_right=0, wild_wrong_ld_rejects=0, both_wrong=0, verdicts={},
                  distinct=set(), unsupported_messages=set(), wild_wrong_ld_rejects_cells=set(),
-                 both_wrong_cells=set(), programs_linked=0, subprocesses=0)
+                 both_wrong_cells=set(), programs_linked=0, subprocesses=0,
+                 reported_reject_messages=set(), _deferred=[])
     samples = []
     with vlib.scratch("c01") as base:
         if chk.seed:
             import random
             random.Random(chk.seed).shuffle(outs)
-        x86_part(chk, base, outs, addends, stats, samples)
+        only = os.environ.get("C01_ONLY")          # development switch; a run with it is never exhaustive
+        if only != "a64":
+            x86_part(chk, base, outs, addends, stats, samples)
         a64 = {}
-        if chk.thorough:
+        if chk.thorough and only != "x86":
             a64 = a64_part(chk, os.path.join(base, "a64"), stats, samples)
+    for key, what, rpl in stats.pop("_deferred"):      # rejected-by-wild cells after the wrong-value cells
+        chk.violation(key, what, rpl)
     cov = {k: (sorted(v) if isinstance(v, set) else v) for k, v in stats.items() if k != "distinct"}
     cov.update({
         "distinct_nontrivial": len(stats["distinct"]) + a64.get("distinct", 0),
@@ -743,17 +802,35 @@ def main():
                 "quick: addend 0, outputs static/pie/shared; thorough: addends 0,8,-4, five outputs, plus "
                 "the AArch64 matrix evaluated with imgsim against ld.lld",
         "defs": [d.name for d in R.X86_DEFS], "refs": [r.id for r in R.X86_REFS], "outs": outs,
-        "addends": addends, "samples": samples, "exhaustive": True, "aarch64": a64,
+        "addends": addends, "samples": samples, "exhaustive": not os.environ.get("C01_ONLY"), "aarch64": a64,
+        "violation_keys": sorted({k for k, _, _ in chk.violations}),
     })
     chk.coverage = cov
+    if os.environ.get("C01_DUMP"):
+        with open(os.environ["C01_DUMP"], "w") as f:
+            for k, what, _ in chk.violations:
+                f.write(f"{k}\t{what}\n")
     chk.assumptions = [
-        "function addresses: whereis (assembler-resolved lea in the definition's own section); data/TLS: "
-        "unique 64-bit marker found at the observed address; common: output .symtab + load base",
-        "static and static-pie outputs run under the check's own freestanding runtime (applies "
-        "RELATIVE/IRELATIVE/RELR/TPOFF64/DTPMOD64 like glibc's static start-up); dynamic outputs under "
-        "the system ld.so without libc (__tls_get_addr from ld.so)",
-        "cells where GNU ld's own program disagrees with the ground truth, or GNU ld rejects, are counted, "
-        "not reported",
+        "ground truth: function addresses from whereis (assembler-resolved lea/adr on a local label in the "
+        "definition's own section, no relocation record); data/TLS: unique 64-bit marker read at the observed "
+        "address; callee-returned markers; literals for absolute symbols, undefined weak (0) and st_size; "
+        "common symbols only: output .symtab value + load base",
+        "32-bit observations (no-REX GOTPCRELX forms) of data and of shared-object functions are compared with "
+        "the address a sibling probe of the same program observed and verified by dereference / call",
+        "static and static-pie outputs run under the check's freestanding runtime (applies RELATIVE / IRELATIVE "
+        "/ RELR / GLOB_DAT / TPOFF64 / DTPMOD64 like glibc's static start-up, sets up TLS variant II); dynamic "
+        "outputs run under the system ld.so with libc.so.6 as an uncalled dependency (ld.so needs malloc); "
+        "__tls_get_addr comes from ld.so",
+        "a cell is reported only when the reference linker (GNU ld; ld.lld for AArch64) links it and its output "
+        "passes the same ground truth; cells the reference rejects or gets wrong itself are counted "
+        "(wild_wrong_ld_rejects, both_wrong); rejections wild explains as unsupported relocation or as its "
+        "direct-reference / recompile-with-fPIC policy are counted (wild_documents_unsupported)",
+        "a cell whose output carries a dynamic relocation type ld.so refuses is taken out of the packed program "
+        "(status dead) instead of poisoning it",
+        "AArch64: imgsim loader model (static TLS variant I as glibc lays it out, eager binding, symbol lookup "
+        "through the outputs' own hash tables) and emulator; R_AARCH64_TLSGD_* not generated (assembler lacks it)",
+        "not enumerated: R_X86_64_DTPOFF64 in executables (GNU ld and ld.lld disagree), writable+executable data "
+        "sections (wild rejects SHF_WRITE|SHF_EXECINSTR .data)",
     ]
     chk.finish()
 
